@@ -136,12 +136,18 @@ func validKey(key string) bool {
 		if segment == "" || segment == "." || segment == ".." {
 			return false
 		}
+		// The backends' own scratch files live next to the objects: a key
+		// with such a name would be hidden from listings, and the mtime probe
+		// would destroy it.
+		if isUploadTemp(segment) {
+			return false
+		}
 	}
 	return true
 }
 
 func invalidKeyError(key string) error {
-	return gofakes3.ErrorInvalidArgument("key", key, "this backend stores keys as file paths: path segments must be non-empty and must not be '.' or '..'")
+	return gofakes3.ErrorInvalidArgument("key", key, "this backend stores keys as file paths: path segments must be non-empty, must not be '.' or '..' and must not be one of the backend's scratch file names ("+uploadTempPrefix+"*, "+modTimeProbeName+")")
 }
 
 // keyConflict reports whether storing an object at objectPath would clash
